@@ -275,6 +275,15 @@ func c10Once(cs *core.Case) (ran, nontrivial bool, sym, det string) {
 	if cen.Res.CreateErr != "" && (cen.ErrIs["unsupported"] || cen.ErrIs["notimplemented"]) {
 		return false, false, "", ""
 	}
+	if strings.Contains(cs.Note, "feat:second-engine") {
+		// another distributed engine, over one remote engine holding other data, is
+		// constructed with the same options before the first one is used
+		other := *cs
+		other.NDist, other.Dist = 1, nil
+		other.Data = []core.SeriesSpec{gen.Regular(`a{l="0",m="0"}`, 0, 30000, 20, 1000, 7), gen.Regular(`b{l="0"}`, 0, 30000, 20, 500, 3)}
+		core.AfterBuild = func() { core.BuildEngine(&other, nil) }
+		defer func() { core.AfterBuild = nil }()
+	}
 	dist := core.RunEngine(cs, st)
 	if s, d := engineSymptom(dist); s != "" {
 		return true, false, s, d
@@ -366,6 +375,55 @@ func init() {
 		c.Rep.Bounds["engines_max"] = maxK
 		qs := c10Queries(c.Thorough())
 		ws := []core.Window{core.Range(10000, 30000, 14), core.Instant(100000)}
+		// optimizer sets other than none (the distributed optimizer runs after them), with
+		// and without a second distributed engine constructed in the same process
+		for _, opt := range []string{"", "all", "sm", "p"} {
+			for _, second := range []bool{false, true} {
+				data := c10Data("regular", 3)
+				for code := 0; code < 8; code++ {
+					dist := make([]int, len(data))
+					for i := 0; i < 3; i++ {
+						dist[i] = (code >> i) & 1
+					}
+					for _, q := range qs {
+						for _, w := range ws {
+							c.Rep.Transitions++
+							if !c.Mine() {
+								continue
+							}
+							if c.Expired() {
+								return
+							}
+							cs := &core.Case{Q: q, Data: data, W: w, O: core.Opts{Optimizers: opt}, Dist: dist, NDist: 2, Note: "optimizers"}
+							if second {
+								cs.Note += " feat:second-engine"
+							}
+							if !c.Progress(cs) {
+								continue
+							}
+							ran, nt, sym, det := c10Once(cs)
+							if !ran {
+								continue
+							}
+							c.Rep.States++
+							c.Rep.Evaluations += 2
+							c.Rep.Traces += 2
+							if nt {
+								c.Rep.Nontrivial++
+							}
+							if sym == "" {
+								c.Rep.Outcomes["agree"]++
+								continue
+							}
+							c.Rep.Outcomes["diff:"+sym]++
+							cp := *cs
+							c.Fail(check.Failure{Prop: "C10", Kind: "enum", Sub: "C10", Symptom: sym, Detail: det, Case: &cp})
+						}
+					}
+				}
+			}
+		}
+		c.Rep.Bounds["optimizer_sets"] = "none everywhere; default, all, sort+merge, propagate over 3 series x 2 engines, with and without a second engine in the process"
 		for _, variant := range []string{"regular", "ends", "stale"} {
 			for n := 1; n <= maxN; n++ {
 				data := c10Data(variant, n)
